@@ -22,15 +22,16 @@ thread_local! { static ST: RefCell<Option<St>> = const { RefCell::new(None) }; }
 fn with<T>(f: impl FnOnce(&mut St) -> T) -> T { ST.with(|s| f(s.borrow_mut().as_mut().expect("sc state"))) }
 fn emit(v: Value) { with(|s| s.out.push(v)); }
 
-const KEYS: [&str; 7] = ["f1", "f2", "x1", "n1", "n2", "s1", "s2"];
+/// `n3` has the NAME of `n1` but another system type: names alone do not identify a cached system.
+const KEYS: [&str; 8] = ["f1", "f2", "x1", "n1", "n2", "s1", "s2", "n3"];
 fn code(k: &str) -> u32 { KEYS.iter().position(|x| *x == k).map(|i| i as u32 + 1).unwrap_or(0) }
 fn name(c: u32) -> &'static str { KEYS[(c - 1) as usize] }
 
 /// Body shared by all systems: returns (call index, local).
-fn body(key: u32, local: u32, mark: u32, mut deferred: impl FnMut(&str, &str), mut now: impl FnMut(&str)) -> (u32, u32)
+fn body(key: u32, local: u32, mark: u32, chg: i32, mut deferred: impl FnMut(&str, &str), mut now: impl FnMut(&str)) -> (u32, u32)
 {
     let c = with(|s| { s.ncall += 1; s.ncall });
-    emit(json!({"t":"call","c":c,"key":name(key),"local":local,"mark":mark}));
+    emit(json!({"t":"call","c":c,"key":name(key),"local":local,"mark":mark,"chg":chg}));
     let script = with(|s| s.scripts.get(c as usize - 1).cloned().unwrap_or_default());
     for (op, arg) in script.iter()
     {
@@ -62,21 +63,29 @@ fn f_sys<const K: u32>(In(key): In<u32>, mut local: Local<u32>, mark: Res<Mark>,
 {
     *local += 1;
     let m = mark.0;
-    body(key, *local, m, |op, arg| queue_op(&mut c, op, arg), |_| {})
+    body(key, *local, m, mark.is_changed() as i32, |op, arg| queue_op(&mut c, op, arg), |_| {})
 }
 
 fn n_sys(In(key): In<u32>, mut local: Local<u32>, mark: Res<Mark>, mut c: Commands) -> (u32, u32)
 {
     *local += 1;
     let m = mark.0;
-    body(key, *local, m, |op, arg| queue_op(&mut c, op, arg), |_| {})
+    body(key, *local, m, mark.is_changed() as i32, |op, arg| queue_op(&mut c, op, arg), |_| {})
+}
+
+/// Same signature as `n_sys`, another type.
+fn n_sys_b(In(key): In<u32>, mut local: Local<u32>, mark: Res<Mark>, mut c: Commands) -> (u32, u32)
+{
+    *local += 1;
+    let m = mark.0;
+    body(key, *local, m, mark.is_changed() as i32, |op, arg| queue_op(&mut c, op, arg), |_| {})
 }
 
 fn s_sys<const K: u32>(In(key): In<u32>, mut local: Local<u32>, mark: Res<Mark>, mut c: Commands) -> (u32, u32)
 {
     *local += 1;
     let m = mark.0;
-    body(key, *local, m, |op, arg| queue_op(&mut c, op, arg), |_| {})
+    body(key, *local, m, mark.is_changed() as i32, |op, arg| queue_op(&mut c, op, arg), |_| {})
 }
 
 /// Exclusive system: may call immediately inside its body; deferred ops go to the world's command queue.
@@ -86,7 +95,7 @@ fn x_sys<const K: u32>(In(key): In<u32>, world: &mut World, mut local: Local<u32
     let m = world.resource::<Mark>().0;
     let wp: *mut World = world;
     // SAFETY: the two closures are used strictly one after the other on this thread, never concurrently.
-    body(key, *local, m,
+    body(key, *local, m, -1,
         |op, arg| { let w = unsafe { &mut *wp }; let mut c = w.commands(); queue_op(&mut c, op, arg); },
         |arg| { let w = unsafe { &mut *wp }; do_call(w, code(arg)); })
 }
@@ -101,6 +110,7 @@ fn do_call(world: &mut World, key: u32)
         "x1" => Ok(syscall(world, key, x_sys::<1>)),
         "n1" => Ok(named_syscall(world, 1u32, key, n_sys)),
         "n2" => Ok(named_syscall(world, 2u32, key, n_sys)),
+        "n3" => Ok(named_syscall(world, 1u32, key, n_sys_b)),
         _ =>
         {
             let id = with(|s| s.spawned[(key - 6) as usize]).expect("spawned id");
